@@ -36,19 +36,22 @@ LawFld == {NoFld, [k |-> "gt", f |-> "fa", c |-> 0], [k |-> "ne", f |-> "fa", c 
 LawTag == {NoTag, [k |-> "ne", key |-> "t1", val |-> "a", vals |-> {}]}
 LawTagQuick == {NoTag}
 THiQuick == {NONE}
+LawFldQuick == {NoFld, [k |-> "gt", f |-> "fa", c |-> 0]}
+TLoQuick == {Min(Times) + 1}
 TLo == {NONE, Min(Times) + 1}
 THi == {NONE, Max(Times)}
+LawDims == {<<>>, <<"t1">>}
 LawQueries(D, x) ==
   {MkRaw(<<"fa">>, d, lo, hi, tc, fc, "and", lim, off) :
        d \in {<<>>, <<"t1">>}, lo \in TLo, hi \in THi, tc \in LawTag, fc \in LawFld,
        lim \in {NONE, 1, 2}, off \in {NONE, 1}}
   \cup
   {MkAgg(<<[fn |-> fn, f |-> f]>>, d, lo, hi, tc, fc, "and", NONE, "null", 0) :
-       fn \in {"count", "sum", "mean", "min", "max", "first", "last"}, f \in FieldSet, d \in {<<>>, <<"t1">>},
+       fn \in {"count", "sum", "mean", "min", "max", "first", "last"}, f \in FieldSet, d \in LawDims,
        lo \in TLo, hi \in THi, tc \in LawTag, fc \in LawFld}
   \cup
   {MkAgg(<<[fn |-> fn, f |-> "fa"], [fn |-> "count", f |-> CHOOSE f \in FieldSet : \A g \in FieldSet : g = "fa" \/ f = g]>>, d, Min(Times), Max(Times) + 1, NoTag, fc, "and", w, fl, 7) :
-       fn \in {"sum", "max", "first"}, d \in {<<>>, <<"t1">>}, fc \in LawFld, w \in {2, 3},
+       fn \in {"sum", "max", "first"}, d \in LawDims, fc \in LawFld, w \in {2, 3},
        fl \in {"null", "none", "num", "prev"}}
   \cup
   {MkAgg(<<[fn |-> "count", f |-> "fa"]>>, d, Min(Times) + 1, Max(Times), NoTag, NoFld, "and", w, fl, 0) :
@@ -88,6 +91,10 @@ BfsAgg(D) ==
        c1 \in Calls(D), c2 \in {[fn |-> "count", f |-> "fb"], [fn |-> "last", f |-> "fa"]}, d \in {<<>>, <<"t1">>},
        fc \in {NoFld, [k |-> "eq", f |-> "fb", c |-> 1]}, w \in {3, 4}, fl \in {"null", "none", "num", "prev"}}
 BfsQueries(D, x) == {q \in BfsRaw(D) \cup BfsAgg(D) : WellFormed(D, q)}
+\* every BfsStride-th query of the universe, starting at BfsOff (quick tier: a seeded sample)
+CONSTANTS BfsStride, BfsOff
+BfsSample(D, x) == LET s == SetToSeq(BfsQueries(D, x))
+                   IN {s[i] : i \in {j \in 1..Len(s) : j % BfsStride = BfsOff}}
 
 -----------------------------------------------------------------------------
 (* sim: random data sets and queries.  Every random choice is bound by a quantifier over a         *)
